@@ -41,7 +41,7 @@ def run_one_shard(spec, workdir, timeout):
     for attempt in (1, 2):
         try:
             proc = subprocess.run(
-                [PY, "-m", "vf.shard", spec_path, out_path], cwd=vf.VERIF, env=env,
+                [PY] + list(spec.get("py_flags") or []) + ["-m", "vf.shard", spec_path, out_path], cwd=vf.VERIF, env=env,
                 timeout=timeout, capture_output=True, text=True)
         except subprocess.TimeoutExpired:
             # never a verdict, and not retried: a hang would only hang again
@@ -89,8 +89,15 @@ def main(argv=None):
                           n_shards=1, cases=1, params=tier_conf.get("params"),
                           replay=rep["case"])]
         else:
+            # (a check may ask for some of its shards to run in an interpreter started with flags such as -O)
+            py_flags = tier_conf.get("py_flags_by_shard")
+            if py_flags is None:
+                # by default the last shard of a check runs with -O (assert statements compiled away)
+                py_flags = {n_shards - 1: ["-O"]} if n_shards >= 2 else {}
+            if os.environ.get("VF_PY_FLAGS"):       # (exploration aid: every shard with these flags)
+                py_flags = {k: os.environ["VF_PY_FLAGS"].split() for k in range(n_shards)}
             specs = [dict(prop=prop, tier=args.tier, seed=seed, shard=k, n_shards=n_shards,
-                          cases=cases, params=tier_conf.get("params"))
+                          cases=cases, params=tier_conf.get("params"), py_flags=py_flags.get(k))
                      for k in range(n_shards)]
         workers = min(len(specs), os.cpu_count() or 4, 16)
         with concurrent.futures.ThreadPoolExecutor(workers) as pool:
